@@ -130,6 +130,23 @@ def search_and_judge(ctx, st, case, pat, built, atol, hints=(None, None, None), 
     w = {"cell_class": built["cell_cls"], "cell": np.round(cell, 5).tolist(), "pattern_class": pat["cls"], "pattern_elements": pat["elements"],
          "pattern_positions": np.round(ppos, 5).tolist(), "atol": atol, "n_atoms": len(atoms), "planted": built["planted"], "crossings": built["crossings"],
          "poses": built["poses"], "decoys": built["decoy_groups"], "hints": list(hints), "schedule": case.get("schedule")}
+    if case["s"] % 3 == 2 and len(pat["elements"]) >= 2 and not label:
+        # the same, unmodified structure object was searched before, for something shorter (one atom of the pattern, or its
+        # closest pair) and with a tighter tolerance: whatever that search left behind must not narrow this one
+        from scipy.spatial.distance import pdist, squareform
+        if case["s"] % 2:
+            sub = [0]
+        else:
+            d = squareform(pdist(ppos)) + 1e9 * np.eye(len(ppos))
+            sub = [int(i) for i in np.unravel_index(int(np.argmin(d)), d.shape)]
+        spat = {"elements": [pat["elements"][i] for i in sub], "positions": ppos[sub]}
+        try:
+            mofun.find_pattern_in_structure(atoms, patterns.to_atoms(spat), atol=min(atol, 0.01))
+            st.count("searches_preceded_by_a_search_for_something_shorter")
+        except Exception as e:
+            if type(e).__name__ == "PostBroken":
+                raise
+            st.count("preceding_search_raised.%s" % type(e).__name__)
     try:
         # call forms: the documented default tolerance left out, hints left out when there are none, verbose output switched on
         kw = {} if (atol == 0.05 and case["s"] % 2) else {"atol": atol}
@@ -285,6 +302,8 @@ def requirements(stats, tier):
     if stats.get("occurrences_after_inplace_edit") < (300 if tier == "quick" else 20000) or stats.nseen("inplace_edit") < 4:
         need.append("searches of an object edited in place since its last search: %d clear occurrences, edit kinds %s" %
                     (stats.get("occurrences_after_inplace_edit"), sorted(stats.sets.get("inplace_edit", []))))
+    if stats.get("searches_preceded_by_a_search_for_something_shorter") < 100:
+        need.append("searches of an unmodified object that was searched before for something shorter: %d" % stats.get("searches_preceded_by_a_search_for_something_shorter"))
     if stats.get("searches_with_positional_arguments") < 20:
         need.append("searches with every option given by position: %d" % stats.get("searches_with_positional_arguments"))
     if stats.get("searches_with_verbose_output") < 20 or stats.get("searches_relying_on_the_default_tolerance") < 20:
